@@ -177,6 +177,12 @@ func c03Targeted(rn string) []string {
 			out = append(out, strings.ReplaceAll(t, "X", x))
 		}
 	}
+	// type casts hand on the input's own nodes (also where the target type is a base of the node's type); variables
+	// written with a delimited or quoted name
+	out = append(out, rn+".descendants().select($this as Quantity)", rn+".descendants().select($this as FHIR.Quantity)", rn+".descendants().select($this as Element)", rn+".descendants().select($this as Age)",
+		rn+".descendants().select($this as Duration)", rn+".descendants().select($this as string)", rn+".descendants().select($this as BackboneElement)", rn+".children().select($this as Resource)",
+		rn+".descendants().where($this is Quantity)", rn+".descendants().select($this.as(Quantity))", rn+".descendants().select(($this as Quantity).value)",
+		"%`nc`", "%'nc'", "%`nc`.count()", "%'r'.id", "%`nosuch`", "%'nosuch'", "%`n`.first()", "%`e` | %'ec'")
 	out = append(out, rn+".descendants().reference", rn+".descendants().ofType(Reference).reference", rn+".descendants().ofType(Reference).children()", rn+".descendants().ofType(Reference)",
 		rn+".descendants().where(reference.exists()).reference", rn+".descendants().value", rn+".descendants().select(reference)", rn+".children().children().reference")
 	return out
@@ -194,6 +200,7 @@ func runC03(c *Ctx) {
 	type fixedRes struct{ rn, js string }
 	fixed := []fixedRes{
 		{"Patient", `{"resourceType":"Patient","id":"p","managingOrganization":{"reference":"Organization/org1/_history/3","display":"d"},"generalPractitioner":[{"reference":"Practitioner/pr/_history/1"},{"reference":"#c1"},{"reference":"urn:uuid:53fefa32-fcbb-4ff8-8a92-55ee120877b7"}],"link":[{"other":{"reference":"RelatedPerson/r/_history/22"},"type":"seealso"}],"name":[{"given":["a","b"]},{"given":["a","b"]}]}`},
+		{"Condition", `{"resourceType":"Condition","id":"c","subject":{"reference":"Patient/1"},"onsetAge":{"value":40,"unit":"a","system":"http://unitsofmeasure.org","code":"a"},"abatementRange":{"low":{"value":1,"unit":"mg"},"high":{"value":2,"unit":"mg"}}}`},
 		{"Observation", `{"resourceType":"Observation","id":"o","status":"final","code":{"text":"c"},"subject":{"reference":"Patient/123/_history/4"},"performer":[{"reference":"Practitioner/x"},{"reference":"Organization/y/_history/9"}],"valueQuantity":{"value":1.50,"unit":"mg"},"referenceRange":[{"low":{"value":1.5},"high":{"value":1.50}}]}`},
 	}
 	// resources built directly as protos, with fields a JSON document cannot leave unset: temporal
